@@ -364,3 +364,12 @@ impl PointSpec {
         }
     }
 }
+
+/// size parameter: mostly 1..=small, in ~8 % of the cases small+1..=large (so that behaviour that only
+/// depends on larger dimensions / longer structures is visited regularly, at bounded cost)
+pub fn sized(small: usize, large: usize) -> BoxedStrategy<usize> {
+    if large <= small {
+        return (1..=small).boxed();
+    }
+    prop_oneof![23 => 1..=small, 2 => (small + 1)..=large].boxed()
+}
